@@ -4,7 +4,7 @@ cd /verif
 if [ -n "$(git -C /repo status --porcelain)" ]; then echo "REFUSE: /repo has uncommitted changes"; exit 2; fi
 for d in seeded/C??-?; do
   id=$(basename $d); P=${id%-*}
-  git -C /repo apply $d/patch.diff || { echo "$id: patch does not apply"; continue; }
+  git -C /repo apply /verif/$d/patch.diff || { echo "$id: patch does not apply"; continue; }
   GOVC_EVIDENCE_DIR=/tmp/govc-mutant-evidence ./check $P quick 2>&1 | grep -E "^VIOLATION|quick:" > $d/detected.txt
   git -C /repo checkout -- . ; git -C /repo clean -fdq
   echo "$id: $(grep -c ^VIOLATION $d/detected.txt) alarms"
